@@ -282,6 +282,11 @@ def require_all(
     def authenticate(req: falcon.Request) -> AuthContext:
         claims = gate(req)
         if inner is None:
+            if claims.get("verified") == "false":
+                # The gate recorded a failure without denying (proxy proof in
+                # ``allow`` mode), so nothing was established: the request
+                # proceeds anonymously, keeping the claims for diagnostics.
+                return dataclasses.replace(AuthContext.anonymous(), claims={gate.claims_key: claims})
             return AuthContext(
                 domain=gate.name,
                 authenticated=True,
